@@ -109,6 +109,17 @@ impl BloomPolicy {
     }
 }
 
+#[cfg(sstable_verif)]
+impl BloomPolicy {
+    /// Exposes the hash function and the number of probes to the verification harness.
+    pub fn verif_bloom_hash(&self, data: &[u8]) -> u32 {
+        self.bloom_hash(data)
+    }
+    pub fn verif_k(&self) -> u32 {
+        self.k
+    }
+}
+
 impl FilterPolicy for BloomPolicy {
     fn name(&self) -> &'static str {
         "leveldb.BuiltinBloomFilter2"
